@@ -20,6 +20,11 @@
                 power p ≥ 0 is admissible over ℝ);
   * metric      `chord_le_iff_arc_le`: on unit vectors chord order = great-circle order (so the
                 cartesian remap selects the great-circle-nearest elements);
+  * coordinates `remapNN_depends_only_on_coords`, `remapIDW_depends_only_on_coords` (a remap sees the
+                two grids only through the centre coordinates they report — not identity, not
+                `Grid.__eq__`), `remapNN_identity_of_same_points` (the sound identity case is keyed
+                on coordinate lists), `shortcut_on_equal_grids_wrong` (counterexample to a shortcut
+                keyed on grid equality);
   * dims/kind   `remap_dims`, `kind_by_dim`, `remap_shape`, `k_guard`, and the as-is
                 counterexamples `asis_kind_by_length`, `asis_single_destination_drops_axis`,
                 `asis_idw_single_destination_raises`, `asis_k_guard_refuses_admissible`, with the
@@ -834,5 +839,49 @@ theorem idw_defaults_admissible :
   intro nSrc h
   rw [k_guard]
   exact ⟨by decide, h⟩
+
+/-! ## 7. a remap depends on the two grids only through the centre coordinates they report -/
+
+section Views
+variable {K : Type} [LinearOrder K] {P : Type}
+
+/-- **coordinates only (nearest neighbour)**: two source grids reporting the same centres for the
+    data's kind, and two destination grids reporting the same centres for the requested kind, give
+    the same result — whatever their identity, their `__eq__` key and all their other tables. -/
+theorem remapNN_depends_only_on_coords (dist : P → P → K) (S S' D D' : GridView P) (sk dk : Kind)
+    (hs : S.pts sk = S'.pts sk) (hd : D.pts dk = D'.pts dk) (row : List K) :
+    remapNN dist S D sk dk row = remapNN dist S' D' sk dk row := by
+  simp [remapNN, hs, hd]
+
+/-- the only sound "identity" case is keyed on the COORDINATES: the destination reports, for the
+    requested kind, exactly the (pairwise distinct) points the source reports for the data's kind -/
+theorem remapNN_identity_of_same_points [Zero K] (dist : P → P → K) (h0 : ∀ a, dist a a = 0)
+    (hpos : ∀ a b, a ≠ b → 0 < dist a b) (S D : GridView P) (sk dk : Kind)
+    (hpts : D.pts dk = S.pts sk) (hnd : (S.pts sk).Nodup) (row : List K)
+    (hlen : row.length = (S.pts sk).length) :
+    remapNN dist S D sk dk row = row.map some := by
+  simp only [remapNN, hpts]
+  exact nnRow_identity dist h0 hpos _ hnd row hlen
+
+end Views
+
+/-- **coordinates only (IDW)** -/
+theorem remapIDW_depends_only_on_coords {K : Type} [Field K] [LinearOrder K] {P : Type}
+    (dist : P → P → K) (pw : K → K) (eps : K) (k : Nat) (S S' D D' : GridView P) (sk dk : Kind)
+    (hs : S.pts sk = S'.pts sk) (hd : D.pts dk = D'.pts dk) (row : List K) :
+    remapIDW dist pw eps k S D sk dk row = remapIDW dist pw eps k S' D' sk dk row := by
+  simp [remapIDW, hs, hd]
+
+/-- counterexample to any shortcut keyed on grid EQUALITY: two grids with the same `__eq__` key
+    (same nodes and face table) whose edge centres are listed in another order (a source-supplied
+    edge table).  Edge data `[10, 20]`: the nearest-neighbour remap gives `[20, 10]`, the shortcut
+    returns `[10, 20]`. -/
+theorem shortcut_on_equal_grids_wrong :
+    ∃ (S D : GridView ℚ) (row : List ℚ), S.eqKey = D.eqKey ∧ S.ident ≠ D.ident ∧
+      remapNN (fun a b => (a - b) * (a - b)) S D .edge .edge row = [some 20, some 10] ∧
+      remapNNShortcut (fun a b => (a - b) * (a - b)) S D .edge .edge row = [some 10, some 20] := by
+  refine ⟨⟨0, 7, fun _ => [0, 1]⟩, ⟨1, 7, fun _ => [1, 0]⟩, [10, 20], rfl, by decide, ?_, ?_⟩
+  · decide +kernel
+  · decide +kernel
 
 end UxVerif.C12
